@@ -16,6 +16,13 @@ pub enum Tier {
 
 pub static RAT_OVERFLOWS: AtomicU64 = AtomicU64::new(0);
 
+/// watchdog slots: per worker thread the case it is executing (idx+1, 0 = idle) and when it started (ms since start)
+const NSLOTS: usize = 256;
+pub static SLOT_IDX: [AtomicU64; NSLOTS] = [const { AtomicU64::new(0) }; NSLOTS];
+pub static SLOT_T0: [AtomicU64; NSLOTS] = [const { AtomicU64::new(0) }; NSLOTS];
+/// a single call into ohsl that does not return within this many seconds is reported as a violation (spin)
+pub const HANG_LIMIT_S: u64 = 20;
+
 /// Run `f`, capturing a panic as its message.
 pub fn catch<T>(f: impl FnOnce() -> T) -> Result<T, String> {
     match catch_unwind(AssertUnwindSafe(f)) {
@@ -378,6 +385,40 @@ impl Ctx {
         let mut total = Acc::new(name);
         let mut done: u64 = 0;
         let mut cap = false;
+        for k in 0..NSLOTS {
+            SLOT_IDX[k].store(0, Ordering::Relaxed);
+        }
+        let finished = AtomicBool::new(false);
+        std::thread::scope(|scope| {
+        // watchdog: a case that does not return is a violation of "bounded work", not something to wait for
+        scope.spawn(|| {
+            let mut tick = 0u64;
+            while !finished.load(Ordering::Relaxed) {
+                std::thread::sleep(std::time::Duration::from_millis(1));
+                tick += 1;
+                if tick % 250 != 0 {
+                    continue;
+                }
+                let now = self.start.elapsed().as_millis() as u64;
+                for k in 0..NSLOTS {
+                    let i = SLOT_IDX[k].load(Ordering::Relaxed);
+                    if i == 0 {
+                        continue;
+                    }
+                    let started = SLOT_T0[k].load(Ordering::Relaxed);
+                    if SLOT_IDX[k].load(Ordering::Relaxed) == i && now > started + HANG_LIMIT_S * 1000 {
+                        let idx = i - 1;
+                        let mut acc = Acc::new(name);
+                        acc.evals = 1;
+                        acc.fail(idx, describe(idx), format!("the call did not return within {} s (unbounded loop?)", HANG_LIMIT_S));
+                        eprintln!("[{}] HANG in space {} case {}", self.prop, name, describe(idx));
+                        self.absorb(name, "E1-lattice", len, 0, true, acc, vec![json!(describe(idx))], t0.elapsed().as_secs_f64());
+                        let code = self.finish_inner(true);
+                        std::process::exit(if code == 0 { 1 } else { code });
+                    }
+                }
+            }
+        });
         while done < len {
             if self.over_budget() {
                 cap = true;
@@ -392,10 +433,14 @@ impl Ctx {
                     let mut acc = Acc::new(name);
                     let lo = done + c * chunk;
                     let h = (lo + chunk).min(hi);
+                    let slot = rayon::current_thread_index().unwrap_or(NSLOTS - 1).min(NSLOTS - 1);
                     for idx in lo..h {
                         acc.begin_case();
+                        SLOT_T0[slot].store(self.start.elapsed().as_millis() as u64, Ordering::Relaxed);
+                        SLOT_IDX[slot].store(idx + 1, Ordering::Relaxed);
                         check(idx, &mut acc);
                     }
+                    SLOT_IDX[slot].store(0, Ordering::Relaxed);
                     acc
                 })
                 .collect();
@@ -404,6 +449,8 @@ impl Ctx {
             }
             done = hi;
         }
+        finished.store(true, Ordering::Relaxed);
+        });
         let mut samples = vec![];
         if len > 0 {
             let mut pick = vec![0, len / 2, len - 1];
@@ -460,6 +507,9 @@ impl Ctx {
 
     /// Write the result file and return the process exit code (0 ok, 1 violations, 3 machinery error).
     pub fn finish(&self) -> i32 {
+        self.finish_inner(false)
+    }
+    pub fn finish_inner(&self, aborted: bool) -> i32 {
         let spaces = self.spaces.lock().unwrap();
         let viols = self.viols.lock().unwrap();
         let mut machinery = self.machinery.lock().unwrap().clone();
@@ -507,7 +557,7 @@ impl Ctx {
                 "classes": s.hits, "notes": s.notes,
             }));
         }
-        if self.replay.is_none() {
+        if self.replay.is_none() && !aborted {
             for req in self.required_hits.lock().unwrap().iter() {
                 if hits.get(req).copied().unwrap_or(0) == 0 {
                     machinery.push(format!("vacuity: required class '{}' was never exercised", req));
